@@ -35,12 +35,19 @@ import (
 
 // designDir returns the directory of a design of the corpus the driver was started on.
 func designDir(design string) string {
+	if staticCorpusDir != "" {
+		return filepath.Join(staticCorpusDir, design)
+	}
 	f := flag.Lookup("corpus")
 	if f == nil {
 		return ""
 	}
 	return filepath.Join(f.Value.String(), design)
 }
+
+// staticCorpusDir is set when the document checks run inside a check binary (C07Static)
+// rather than inside a corpus driver.
+var staticCorpusDir string
 
 // formatOutsideTables counts strings kin asked a format verdict for that the constructive
 // tables do not contain (must stay 0 for the verdicts to mean anything).
